@@ -1129,7 +1129,11 @@ class Image(object):
 
         if self.mode == ImageMode.RGB:
             sub_b[..., :3] = sub_i
-            sub_b[..., 3] = 255
+
+            # The buffer lacks an alpha plane if it is an RGB tile that was
+            # read back from disk (e.g., any JPEG tile).
+            if sub_b.shape[-1] > 3:
+                sub_b[..., 3] = 255
         elif self.mode == ImageMode.RGBA:
             valid = sub_i[..., 3] != 0
             valid = np.broadcast_to(valid[..., None], sub_i.shape)
